@@ -114,20 +114,19 @@ def check(ctx):
         ok = False
         for c in cls:
             ctx.touch(c)
-            trues = [b for b, i, st in c.iter_stmts() if st["k"] == "assign" and st["place"]["l"] == 0 and "use" in st["rv"] and lib.const_val(st["rv"]["use"]) == 1]
-            heads_rt, heads_id = [], []
-            for b, t, fr in c.iter_calls():
-                if fr and lib.tail(mir.fn_name(fr), 1) in ("eq", "ne") and len(t["args"]) >= 2:
-                    ea = equal_arm(c, b, fr)
-                    args = fr.get("args", [])
-                    both = origins(c, t["args"][0]) | origins(c, t["args"][1])
-                    from_env = any(o[0] == "arg" and o[1] == 1 for o in both)
-                    if any(a.endswith("EntityReactionType") for a in args) and from_env and any(o[0] == "arg" and o[1] == 2 for o in both):
-                        heads_rt.append(ea)
-                    if any(a.endswith("SystemCommand") for a in args) and from_env:
-                        heads_id.append(ea)
-            if trues and all(lib.dominated_by_any(c, b, heads_rt) and lib.dominated_by_any(c, b, heads_id) for b in trues):
-                ok = True
+            reqs = lib.true_return_requirements(c)
+            if not reqs:
+                continue
+            rt_cmp, id_cmp = set(), set()
+            for (b, t, fr, is_eq) in lib.comparison_calls(c):
+                args = fr.get("args", [])
+                both = origins(c, t["args"][0]) | origins(c, t["args"][1])
+                from_env = any(o[0] == "arg" and o[1] == 1 for o in both)
+                if any(a.endswith("EntityReactionType") for a in args) and from_env and any(o[0] == "arg" and o[1] == 2 for o in both):
+                    rt_cmp.add(b)
+                if any(a.endswith("SystemCommand") for a in args) and from_env:
+                    id_cmp.add(b)
+            ok = all(any(r.get(b) is True for b in rt_cmp) and any(r.get(b) is True for b in id_cmp) for r in reqs)
         ctx.check(ok, "C06.b", "EntityReactors::remove:predicate-needs-type-and-id", "%s:%d" % (er.file, er.line),
                   "entry is removed only where reaction type and system id both compared equal",
                   "EntityReactors::remove's predicate does not require both the reaction type and the system id to match")
